@@ -5,6 +5,16 @@ import Sck.Model.Cert
 import Sck.Model.SMCert
 import Sck.Model.Stv
 import Sck.Model.Simulate
+import Sck.Model.Voting
+import Sck.Model.VotingExtra
+import Sck.Model.Elicit
+import Sck.Model.Eat
+import Sck.Model.Bvn
+import Sck.Model.Rsd
+import Sck.Model.Hall
+import Sck.Model.Irving
+import Sck.Model.C12Spec
+import Sck.Driver.FlowOps
 
 /-! One canonical answer line per op line (core-only; compiled into the `driver` executable). -/
 
@@ -96,6 +106,224 @@ def opSim : P String := do
   | none => pure "err nonmono"
   | some acc => pure (joinS ("ok" :: (List.range m).map (fun q => showRat (acc q))))
 
+/-! ### voting -/
+
+def showInts (l : List Int) : List String := l.map toString
+def showNats (l : List Nat) : List String := l.map toString
+def showRats (l : List Rat) : List String := l.map showRat
+
+def pTb : P Vote.TieBreaker := do
+  let t ← tok
+  match t with
+  | "accept" => pure .accept
+  | "first" => pure .first
+  | "random" => do let k ← nat; pure (.random k)
+  | _ => throw s!"tb:{t}"
+
+/-- `score <rule> [k] n m P` → `ok m s1..sm k w1..wk` (winners 0-indexed) -/
+def opScore : P String := do
+  let rule ← tok
+  let k ← (if rule == "kapproval" then nat else pure 0)
+  let n ← nat; let m ← nat
+  let Pr ← matrix nat n m
+  eol
+  match rule with
+  | "harmonic" =>
+    let s := Vote.harmonic Pr m
+    let w := Vote.winnersQ s
+    pure (joinS (["ok", toString m] ++ showRats s ++ [toString w.length] ++ showNats w))
+  | _ =>
+    let s? : Option (List Int) := match rule with
+      | "plurality" => some (Vote.plurality Pr m)
+      | "borda" => some (Vote.borda Pr m)
+      | "veto" => some (Vote.veto Pr m)
+      | "kapproval" => some (Vote.kApproval k Pr m)
+      | "copeland" => some (Vote.copeland Pr m)
+      | _ => none
+    match s? with
+    | none => pure "err unknown-rule"
+    | some s =>
+      let w := Vote.winnersI s
+      pure (joinS (["ok", toString m] ++ showInts s ++ [toString w.length] ++ showNats w))
+
+/-- `hhist n m P` → per alternative: harmonicOfHist (hist) (exact) -/
+def opHHist : P String := do
+  let n ← nat; let m ← nat
+  let Pr ← matrix nat n m
+  eol
+  pure (joinS ("ok" :: showRats ((List.range m).map (fun j => Vote.harmonicOfHist (Vote.hist Pr m j)))))
+
+/-- `util n m V` → `ok m shares… k winners…` | `err zero-total` -/
+def opUtil : P String := do
+  let n ← nat; let m ← nat
+  let V ← matrix optRat n m
+  eol
+  match Vote.utilitarian V m with
+  | none => pure "err zero-total"
+  | some s =>
+    let w := Vote.winnersQ s
+    pure (joinS (["ok", toString m] ++ showRats s ++ [toString w.length] ++ showNats w))
+
+/-- `scfi fixer tb m scores…` / `scfq …` → `ok k alts…` | `err raise` -/
+def opScfI : P String := do
+  let fixer ← nat; let tb ← pTb; let s ← list int; eol
+  match Vote.scfI fixer tb s with
+  | none => pure "err raise"
+  | some out => pure (joinS (["ok", toString out.length] ++ showNats out))
+
+def opScfQ : P String := do
+  let fixer ← nat; let tb ← pTb; let s ← list rat; eol
+  match Vote.scfQ fixer tb s with
+  | none => pure "err raise"
+  | some out => pure (joinS (["ok", toString out.length] ++ showNats out))
+
+/-- `swfi fixer m scores… k (alt score)*` → ok | err invalid -/
+def opSwfI : P String := do
+  let fixer ← nat; let s ← list int
+  let out ← list (do let a ← nat; let v ← int; pure (a, v))
+  eol
+  pure (if Vote.validRankingI fixer s out then "ok" else "err invalid-ranking")
+
+def opSwfQ : P String := do
+  let fixer ← nat; let s ← list rat
+  let out ← list (do let a ← nat; let v ← rat; pure (a, v))
+  eol
+  pure (if Vote.validRankingQ fixer s out then "ok" else "err invalid-ranking")
+
+def opRandProbs : P String := do
+  let s ← list rat; eol
+  match Vote.randProbs s with
+  | none => pure "err zero-total"
+  | some p => pure (joinS ("ok" :: showRats p))
+
+/-! ### allocation: eating, BvN replay, RSD -/
+
+def opEat : P String := do
+  let n ← nat
+  let Pr ← matrix nat n n
+  let speeds ← rep rat n
+  eol
+  if !(Eat.eatWfB n Pr speeds) then pure "err not-wf" else
+  match Eat.eat n Pr speeds with
+  | none => pure "err stuck"
+  | some X => pure (joinS ("ok" :: (X.flatMap (fun row => row.map showRat))))
+
+/-- `bvn n X(n*n rats) k perm1(n) … permk(n)` → `ok s|x k z1..zk zero|nonzero recon|norecon` -/
+def opBvn : P String := do
+  let n ← nat
+  let X ← matrix rat n n
+  let perms ← list (rep nat n)
+  eol
+  let bal := match isBalancedB n X with | none => "x" | some s => showRat s
+  match bvnReplay n X perms with
+  | .error e => pure s!"err {bal} {e.replace " " "_"}"
+  | .ok (zs, R) =>
+    pure (joinS (["ok", bal, toString zs.length] ++ showRats zs ++
+      [if isZeroB R then "zero" else "nonzero", if reconB n X zs perms then "recon" else "norecon",
+       showRat (sumList zs)] ++ (R.flatMap (fun row => row.map showRat))))
+
+/-- `rsd n m P(n*m optnat) order(n…)` → `ok a1..an` (x = none) -/
+def opRsd : P String := do
+  let n ← nat; let m ← nat
+  let Pr ← matrix optNat n m
+  let order ← list nat
+  eol
+  pure (joinS ("ok" :: (rsd Pr order).map showOptNat))
+
+/-! ### certificates -/
+
+def opHall : P String := do
+  let n ← nat
+  let w ← matrix optRat n n
+  let S ← list nat
+  eol
+  pure (if hallCertOk n w S then "ok" else "err cert")
+
+def opStable : P String := do
+  let n ← nat
+  let P1 ← matrix nat n n
+  let P2 ← matrix nat n n
+  let mu ← rep nat n
+  eol
+  let inv := invOf n mu
+  pure (if isPermWith n mu inv && stableB n P1 P2 mu inv then "ok" else "err unstable")
+
+/-- `elim n V1 V2 k0 M(k0 pairs) r (len pairs…)*` → `ok value0 value1 weights… M'` | `err not-exposed` -/
+def opElim : P String := do
+  let n ← nat
+  let V1 ← matrix int n n
+  let V2 ← matrix int n n
+  let M ← list (do let a ← nat; let b ← nat; pure (a, b))
+  let rots ← list (list (do let a ← nat; let b ← nat; pure (a, b)))
+  eol
+  match Irving.eliminateAll M rots with
+  | none => pure "err not-exposed"
+  | some M' =>
+    pure (joinS (["ok", toString (Irving.matchingValue V1 V2 M), toString (Irving.matchingValue V1 V2 M'),
+      toString rots.length] ++ rots.map (fun r => toString (Irving.rotationWeight V1 V2 r)) ++
+      M'.flatMap (fun e => [toString e.1, toString e.2])))
+
+/-! ### elicitation -/
+
+/-- `sim2 m vals… k lams…` → two-sided fill -/
+def opSim2 : P String := do
+  let m ← nat
+  let vals ← rep rat m
+  let lams ← list rat
+  eol
+  let valf := fun q => vals.getD q 0
+  match Elicit.simulate2 valf m lams with
+  | none => pure "err nonmono"
+  | some acc =>
+    let qs := Elicit.simQueries2 valf m lams
+    pure (joinS (("ok" :: (List.range m).map (fun q => showRat (acc q))) ++ ["q", toString qs.length] ++ showNats qs))
+
+/-- `simq floor m vals… k lams…` → like `sim` plus the asked positions -/
+def opSimQ : P String := do
+  let floor ← rat
+  let m ← nat
+  let vals ← rep rat m
+  let lams ← list rat
+  eol
+  let valf := fun q => vals.getD q 0
+  match simulate floor valf m lams with
+  | none => pure "err nonmono"
+  | some acc =>
+    let qs := Elicit.simQueries valf m lams
+    pure (joinS (("ok" :: (List.range m).map (fun q => showRat (acc q))) ++ ["q", toString qs.length] ++ showNats qs))
+
+/-- `rootnsd n m P` → `ok a1..an` -/
+def opRootNSD : P String := do
+  let n ← nat; let m ← nat
+  let Pr ← matrix nat n m
+  eol
+  pure (joinS ("ok" :: (Elicit.rootNSD Pr m).map showOptNat))
+
+/-- `m2q floor m vals… p` -/
+def opM2q : P String := do
+  let floor ← rat
+  let m ← nat
+  let vals ← rep rat m
+  let p ← nat
+  eol
+  let valf := fun q => vals.getD q 0
+  pure (joinS ("ok" :: (List.range m).map (fun q => showRat (Elicit.m2qAgent floor valf p q))))
+
+/-- `elicitor memo fixer nb (a j occ ans)* nq (a j)*` → `ok count nf (fa fj)* answers…`
+backing answers are given as a finite table (query, occurrence) ↦ answer; missing entries answer 0 -/
+def opElicitor : P String := do
+  let memo ← nat; let fixer ← nat
+  let table ← list (do let a ← nat; let j ← nat; let k ← nat; let v ← rat; pure ((a, j), k, v))
+  let qs ← list (do let a ← nat; let j ← nat; pure (a, j))
+  eol
+  let backing : Nat × Nat → Nat → Rat := fun q k =>
+    match table.find? (fun e => e.1 == q && e.2.1 == k) with
+    | some e => e.2.2
+    | none => 0
+  let (st, ans) := Elicit.runOps (memo == 1) fixer backing Elicit.ElSt.init qs
+  pure (joinS (["ok", toString st.count, toString st.forwarded.length] ++
+    st.forwarded.flatMap (fun e => [toString e.1, toString e.2]) ++ showRats ans))
+
 def dispatch : String → Option (P String)
   | "gs" => some opGs
   | "ff" => some opFf
@@ -103,7 +331,26 @@ def dispatch : String → Option (P String)
   | "smcert" => some opSmCert
   | "stv" => some opStv
   | "sim" => some opSim
-  | _ => none
+  | "score" => some opScore
+  | "hhist" => some opHHist
+  | "util" => some opUtil
+  | "scfi" => some opScfI
+  | "scfq" => some opScfQ
+  | "swfi" => some opSwfI
+  | "swfq" => some opSwfQ
+  | "randprobs" => some opRandProbs
+  | "eat" => some opEat
+  | "bvn" => some opBvn
+  | "rsd" => some opRsd
+  | "hall" => some opHall
+  | "stable" => some opStable
+  | "elim" => some opElim
+  | "sim2" => some opSim2
+  | "simq" => some opSimQ
+  | "rootnsd" => some opRootNSD
+  | "m2q" => some opM2q
+  | "elicitor" => some opElicitor
+  | op => dispatchFlow op
 
 def handle (line : String) : String :=
   let toks := (line.splitOn " ").map (fun s => s.trimAscii.toString) |>.filter (· ≠ "")
